@@ -162,7 +162,8 @@ def run_sequence(seq, p):
         except Exception as ex:  # noqa: BLE001
             problems.append(("harness-plain-call-raises", ci, repr(ex)))
             return problems
-        if plainify(got) != plainify(want):
+        big = any(isinstance(x, (int, float)) and not isinstance(x, bool) and abs(x) > 2 ** 40 for x in leaves(list(plain)))
+        if plainify(got) != plainify(want) and not big:      # big operands: Python's own float arithmetic is inexact, only the published integers are compared
             problems.append(("returned-structure-differs", ci, "snark returned %r, the undecorated function gives %r" % (got, want)))
         newvars = H.R.vars[nv0:]
         pubs = [v for k, v in newvars if k == "pub"]
@@ -249,6 +250,10 @@ def sequences(level):
     opcalls = [(b, a) for b in OP_BODIES for a in ([6], [S], [3, S], [S, 3])]
     seqs += [[c] for c in opcalls]
     seqs += [[("product", [3]), c] for c in opcalls[:: 2]]
+    # results beyond the 53-bit mantissa of a double: the published output is the exact wire value
+    for a in ([2 ** 53 + 1, 1.00390625], [1.00390625, 2 ** 53 + 1], [2 ** 53 + 1, S], [float(2 ** 60), 3], [2 ** 62 + 1, 2.5]):
+        for b in ("product", "identity", "first_twice"):
+            seqs.append([(b, a)])
     sub = calls[:: (2 if level >= 1 else 5)]
     seqs += [[a, b] for a in sub for b in sub[:: 3]]
     sub3 = sub[:: 3]
